@@ -7,7 +7,7 @@
 #   Prints a JSON summary line.  Never touches /repo.
 set -u
 SD=$(realpath "$1"); PROP=$2; CP=${3:-$SD/patch.diff}; [ -z "${3:-}" ] && [ -f "$SD/patch.rebased.diff" ] && CP=$SD/patch.rebased.diff
-BASE=28de550
+BASE=${SEED_BASE:-28de550}
 D=$(mktemp -d /tmp/petlmon-seed-XXXXXX)
 trap 'rm -rf "$D"' EXIT
 mkdir -p "$D/base" && git -C /repo archive $BASE | tar -x -C "$D/base" && cp /repo/petl/version.py "$D/base/petl/version.py"
